@@ -91,6 +91,8 @@ func deliverToSubscription(
 					s.Where(sql.And(
 						// not necessary? maybe helps with indexes?
 						sql.EQ(t.C(message.TopicColumn), m.TopicID),
+						// ordering is per key: only chain behind the same key
+						sql.EQ(t.C(message.FieldOrderKey), *m.OrderKey),
 					))
 				},
 			).
